@@ -66,4 +66,47 @@ theorem parameter_string_table :
       m.1 == r.2.1 && m.2 == r.2.2) = true := by
   decide +kernel
 
+/-! ### `_create_class_attribute_string` on one attribute: public × static × 5 types × 3 names × flag -/
+
+def attrTypeOf : Nat → Option AType
+  | 0 => none | 1 => some intT | 2 => some (.tuple [intT]) | 3 => some (.typeVar "T") | _ => some (.set [intT])
+
+def attrOf (pub static : Bool) (t n : Nat) : Attribute :=
+  { id := "p/m/C/" ++ nameOf n, name := nameOf n, isPublic := pub, isStatic := static, type := attrTypeOf t }
+
+/-- the model's text, (sorted) TODO keys and (sorted) attribute names -/
+def modelAttributeString (pub static : Bool) (t n : Nat) (safe : Bool) : String × List String × List String :=
+  let env : Env := { api := { package := "p" }, safe := safe }
+  match (createClassAttributeString env [attrOf pub static t n] "    ").run { moduleId := "p/m" } with
+  | .ok ((s, names), st) => (s, sortStrings st.todos, sortStrings names)
+  | .error e => ("!" ++ e.name, [], [])
+
+theorem attribute_string_table :
+    Generated.attributeStringTable.all (fun r =>
+      let m := modelAttributeString r.1.1 r.1.2.1 r.1.2.2.1 r.1.2.2.2.1 r.1.2.2.2.2
+      m.1 == r.2.1 && m.2.1 == r.2.2.1 && m.2.2 == r.2.2.2) = true := by
+  decide +kernel
+
+/-! ### `_create_result_string` on result lists of length 0 … 2 over {no type, `None`, `int`, `tuple[int]`} × flag -/
+
+def resTypeOf : Nat → Option AType
+  | 0 => none | 1 => some (.named "None" "builtins.None") | 2 => some intT | _ => some (.tuple [intT])
+
+def resultsOf : List Nat → Nat → List Result
+  | [], _ => []
+  | t :: ts, k => { id := "p/m/f/" ++ (if k == 0 then "result_1" else "val"), name := (if k == 0 then "result_1" else "val"),
+                    type := resTypeOf t } :: resultsOf ts (k + 1)
+
+def modelResultString (shape : List Nat) (safe : Bool) : String × List String :=
+  let env : Env := { api := { package := "p" }, safe := safe }
+  match (createResultString env (resultsOf shape 0)).run { moduleId := "p/m" } with
+  | .ok (s, st) => (s, sortStrings st.todos)
+  | .error e => ("!" ++ e.name, [])
+
+theorem result_string_table :
+    Generated.resultStringTable.all (fun r =>
+      let m := modelResultString r.1.1 r.1.2
+      m.1 == r.2.1 && m.2 == r.2.2) = true := by
+  decide +kernel
+
 end StubGen.Decisions
